@@ -303,7 +303,9 @@ def generate(unit_dir, mustfail=False, mutate=None, variant=None, template='unit
                 elif k == 'alias':
                     spec['aliases'][hdr[1]] = hdr[2]
                     spec['rules'].add('R8')
-                elif k == 'rewrite':
+                elif k in ('rewrite', 'rewrite?'):
+                    # `rewrite?`: the same, but the source text need not occur (used for std constructors that panic on some arguments:
+                    # if the code starts to use one, the call goes through a stand-in that states the panic condition)
                     # R11: an expression the verifier cannot take (char-pattern string methods) is replaced, textually and exactly,
                     # by a call of a contract-less stand-in: `//@@ rewrite <source text> => <replacement>`
                     joined = ' '.join(hdr[1:])
@@ -312,7 +314,7 @@ def generate(unit_dir, mustfail=False, mutate=None, variant=None, template='unit
                         raise ExtractError('%s: rewrite needs `<from> => <to>`' % tpath)
                     frm, to = joined.split(sep, 1)
                     to = to.replace('\\n', '\n')      # `\n` in the replacement text: a line break (so that a spliced clause can carry a label comment)
-                    spec.setdefault('rewrites', []).append((frm, to))
+                    spec.setdefault('rewrites' if k == 'rewrite' else 'rewrites_opt', []).append((frm, to))
                     spec['rules'].add('R11')
                 elif k == 'macro':
                     spec['macros'][hdr[1]] = ' '.join(x.strip() for x in body if x.strip())
@@ -546,6 +548,8 @@ def apply_renames(spec, m):
     spec['loops'] = {kk: dict(v, inv=f(v.get('inv'))) for kk, v in spec.get('loops', {}).items()}
     if spec.get('rewrites'):
         spec['rewrites'] = [(f(a), f(b)) for a, b in spec['rewrites']]
+    if spec.get('rewrites_opt'):
+        spec['rewrites_opt'] = [(f(a), f(b)) for a, b in spec['rewrites_opt']]
 
 
 import threading
